@@ -424,6 +424,7 @@ def build_pool(scratch=None, nfields=12):
             compressed_dimensions={1: (1, 2)},
             list_variable=cfdm.List(data=cfdm.Data(np.array([0, 2, 5]))))
         add("array.gathered", ga)
+        add("list.new", ga.get_list())
         add("data.gathered", cfdm.Data(ga))
     except Exception as e:
         sys.stderr.write("compressed arrays unavailable: %r\n" % (e,))
